@@ -18,25 +18,34 @@ type c02Case struct {
 	Any   bool             `json:"any"`
 	Done0 bool             `json:"done0"`
 	Steps [][2]bool        `json:"steps,omitempty"`
+	// Mod: the filter values handed to the matchers no longer say what they said
+	Mod bool `json:"mod,omitempty"`
 }
 
 func c02Run(c *c02Case) {
 	switch c.K {
 	case "match":
+		// the same filter values are turned into matchers twice (one by one, then as a list), as a relay hands
+		// one REQ to its router, its cache and its merge handler
 		ev := c.E.ToEvent()
+		fs := common.ToFilters(c.Fs)
 		c.Per = make([]bool, len(c.Fs))
-		for i, jf := range c.Fs {
-			c.Per[i] = mocrelay.NewReqFilterMatcher(jf.ToFilter()).Match(ev)
+		for i := range fs {
+			c.Per[i] = mocrelay.NewReqFilterMatcher(fs[i]).Match(ev)
 		}
-		c.Any = mocrelay.NewReqFiltersEventLimitMatcher(common.ToFilters(c.Fs)).Match(ev)
+		c.Any = mocrelay.NewReqFiltersEventLimitMatcher(fs).Match(ev)
+		c.Mod = !common.FiltersIntact(fs, c.Fs)
 	case "seq":
-		m := mocrelay.NewReqFiltersEventLimitMatcher(common.ToFilters(c.Fs))
+		fs := common.ToFilters(c.Fs)
+		mocrelay.NewReqFiltersEventLimitMatcher(fs) // a first matcher over the same filter values, not used
+		m := mocrelay.NewReqFiltersEventLimitMatcher(fs)
 		c.Done0 = m.Done()
 		c.Steps = make([][2]bool, len(c.Es))
 		for i, je := range c.Es {
 			lm := m.LimitMatch(je.ToEvent())
 			c.Steps[i] = [2]bool{lm, m.Done()}
 		}
+		c.Mod = !common.FiltersIntact(fs, c.Fs)
 	}
 }
 
